@@ -217,10 +217,10 @@ where
         }
         is_left_of_root = true;
 
-        if (dx < T::epsilon())
-            || (T::abs(dx / x) < T::sqrt(T::epsilon()))
-            || (T::abs(dfdx) < T::epsilon())
-        {
+        // NB: no absolute threshold on dfdx here.  Its magnitude scales
+        // with the size of the argument, and is legitimately below machine
+        // epsilon for small-norm points close to the cone boundary
+        if (dx < T::epsilon()) || (T::abs(dx / x) < T::sqrt(T::epsilon())) || !dx.is_finite() {
             break;
         }
         x += dx;
